@@ -212,6 +212,9 @@ pub enum Op {
     Stats,
     /// Store::sync()
     Sync,
+    /// outside interference that must not matter: delete (part of) the backup a rebuild left
+    /// behind (0 = event.map.bak, 1 = lmdb.bak, 2 = both)
+    RemoveBackup(u8),
     /// the NEXT op is killed at its k-th kill point and the run continues from the
     /// durable state of that instant (crash mode)
     Crash(u32),
@@ -247,6 +250,7 @@ impl Op {
             Op::Has(_) => "has",
             Op::Stats => "stats",
             Op::Sync => "sync",
+            Op::RemoveBackup(_) => "remove_backup",
             Op::Crash(_) => "crash",
             Op::Fail(_) => "fail",
             Op::Starve => "starve",
@@ -542,6 +546,7 @@ impl Op {
             Op::Has(id) => format!("has id={}", hex(id)),
             Op::Stats => "stats".into(),
             Op::Sync => "sync".into(),
+            Op::RemoveBackup(w) => format!("remove_backup which={w}"),
             Op::Crash(k) => format!("crash k={k}"),
             Op::Fail(k) => format!("fail k={k}"),
             Op::Starve => "starve".into(),
@@ -575,6 +580,7 @@ impl Op {
             "has" => Op::Has(unhex32(kv.get("id")?)?),
             "stats" => Op::Stats,
             "sync" => Op::Sync,
+            "remove_backup" => Op::RemoveBackup(kv.get("which")?.parse().map_err(e)?),
             "crash" => Op::Crash(kv.get("k")?.parse().map_err(e)?),
             "fail" => Op::Fail(kv.get("k")?.parse().map_err(e)?),
             "starve" => Op::Starve,
